@@ -34,6 +34,15 @@ class Env:
                 self.auger.append((x, m.group(1), m.group(2), m.group(3)))
         self.avog = h.val["AVOGNUM"]
         self.zmax = h.val["ZMAX"]
+        # where the Kissel tables end: the total table and every sub-shell table of an element have their own last abscissa (a few eV apart),
+        # the slivers between them are argument regions of their own
+        self.table_ends = {}
+        try:
+            for z, d in xrl.DataFiles(src).kissel(h.val.get("SHELLNUM_K", 31)).items():
+                ends = {math.exp(d["total"][0][-1])} | {math.exp(p[1][-1]) for p in d["partial"].values() if len(p[1])}
+                self.table_ends[z] = sorted(ends)
+        except Exception:
+            self.table_ends = {}
         # exported helper functions (declared in src/xrf_cross_sections_aux.h, not in the public headers)
         self.helpers = {}
         p = os.path.join(src, "src", "xrf_cross_sections_aux.h")
@@ -160,6 +169,10 @@ def energies(env, z, rng, nrand):
             if e:
                 es.update([e * (1 - 1e-6), e, e * (1 + 1e-6), e + 0.05])
     es.update([0.0, -1.0, 1e-300, 1e300, 0.1, 1.0, 10.0, 100.0, 200.0, 299.0, 1000.0])
+    ends = env.table_ends.get(z, [])
+    for e in ends:
+        es.update([e * (1 - 1e-9), e * (1 + 1e-9)])
+    es.update(0.5 * (a + b) for a, b in zip(ends, ends[1:]))
     for _ in range(nrand):
         es.add(math.exp(math.log(0.05) + rng.random() * (math.log(300.0) - math.log(0.05))))
     return sorted(es)
